@@ -35,6 +35,7 @@ type c04sCase struct {
 func genC04S(t *rapid.T) c04sCase {
 	c := c04sCase{Cfg: genCfg(t)}
 	c.Cfg.RawAPI = false
+	c.Cfg.ManualFlush = false
 	c.HSends = rapid.SliceOfN(rapid.Custom(func(t *rapid.T) sim.Step { return sim.Step{Op: "send", Size: sizeGen.Draw(t, "sz")} }), 0, 3).Draw(t, "hsends")
 	c.HRecvs = rapid.IntRange(0, 3).Draw(t, "hrecvs")
 	c.How = rapid.SampledFrom([]string{"server_ctx", "client_disconnect", "client_cancel"}).Draw(t, "how")
